@@ -118,6 +118,17 @@ func (db *SpecDB) pureExt(fn *ssa.Function) bool {
 	if db.pureExts[n] {
 		return true
 	}
+	// decoders and fillers write through their pointer / slice arguments
+	// whatever package they live in (json.Unmarshal, MsgCtl.ReadMsgInto,
+	// rand.Read, hex.Decode, (*net.TCPConn).Read, reflect's setters, ...)
+	for _, p := range []string{"Unmarshal", "Decode", "Read", "Scan", "Sscan", "Fscan", "UnPack", "Set", "Put", "Fill", "Copy"} {
+		if strings.HasPrefix(fn.Name(), p) {
+			return false
+		}
+	}
+	if fn.Name() == "Encode" {
+		return false
+	}
 	pp := pkgPathOf(fn)
 	switch pp {
 	case "fmt", "strings", "strconv", "errors", "time", "net", "path", "path/filepath", "unicode", "unicode/utf8", "math", "sort", "slices", "maps", "bytes", "encoding/base64", "encoding/hex", "crypto/md5", "crypto/subtle", "reflect", "context", "net/url", "net/netip", "github.com/samber/lo", "math/rand", "crypto/rand", "regexp", "github.com/fatedier/golib/msg/json", "encoding/json":
